@@ -24,7 +24,9 @@ UNPARSABLE = {
 
 # expressions whose value is a document node rendered through the hook (escaped & < > only)
 TITLE_ATTRS = {'title', 'fullTitle', 'tocEntry', 'fullTocEntry', 'caption', 'captionName'}
-RAW_ATTRS = {'textContent', 'source', 'childrenSource'}
+# attributes that hold document text as a plain Python string (confirmed by reading the code that sets them):
+#   textContent / source / childrenSource: DOM accessors;  plain_listing: Packages/listings._format, the listing's lines as read
+RAW_ATTRS = {'textContent', 'source', 'childrenSource', 'plain_listing'}
 ESCAPING = {'e', 'escape', 'forceescape', 'urlencode', 'tojson'}
 UNESCAPING = {'striptags'}
 
@@ -49,47 +51,75 @@ def check(chk):
 
 
 def r121(chk, m):
-    R = chk.rule('R12.1', 'the escaping hook: on the non-markup path the text passes through & -> &amp; first, then < and >; the hook '
-                 'is a pure function of the text node (no state kept between calls)', 2)
-    fn = m.func(PT, 'PageTemplate.textDefault')
+    from .. import absint as A
+    from . import domheap as D
+    R = chk.rule('R12.1', 'the escaping hook interpreted on text nodes: ordinary text comes back with & < > replaced by their entities (and '
+                 'nothing else changed, entity-like text included), text marked as markup comes back unchanged; the hook keeps no '
+                 'state between calls', 5)
+    PTc = m.cls(PT, 'PageTemplate')
+    fn = m.find_method(PTc, 'textDefault')
+    need(fn is not None, 'PageTemplate.textDefault not found')
     chk.analysed(fn)
-    guard = [n for n in fn.node.body if isinstance(n, ast.If)]
-    ok = len(guard) == 1 and text(guard[0].test).replace(' ', '') in ("notgetattr(node,'isMarkup',None)",)
-    reps = []
-    if ok:
-        for s in guard[0].body:
-            if isinstance(s, ast.Assign) and text(s.targets[0]) == 'node' and isinstance(s.value, ast.Call) and M.call_name(s.value) == 'node.replace':
-                reps.append(tuple(m.eval_const(fn, a) for a in s.value.args))
-    want = [('&', '&amp;'), ('<', '&lt;'), ('>', '&gt;')]
-    chk.verdict(R, 'textDefault escapes & first, then < and >', ok and reps[:1] == want[:1] and sorted(reps) == sorted(want) and
-                text(fn.node.body[-1]) == 'return self.outputType(node)',
-                'the non-markup path of textDefault performs the replacements %s (required: %s with & first)' % (reps, want), chk.where(fn), str(reps))
-    state = [text(n) for n in M.walk_no_nested(fn.node) if isinstance(n, (ast.Assign, ast.AugAssign)) and
-             any(re.match(r'self\.', text(t)) for t in (n.targets if isinstance(n, ast.Assign) else [n.target]))]
-    reads = sorted({text(n) for n in M.walk_no_nested(fn.node) if isinstance(n, ast.Attribute) and text(n.value) == 'self'} - {'self.outputType'})
-    chk.verdict(R, 'textDefault keeps no state', not state and not reads,
-                'textDefault reads/writes renderer state (%s %s): a result cached by text value ignores the isMarkup flag of the node, so '
-                'ordinary text equal to an earlier raw-HTML snippet is emitted unescaped' % (state, reads), chk.where(fn))
+    import html as _html
+
+    class H(D.DomHooks):
+        def call(self, interp, node, fname, args, kwargs, state):
+            if isinstance(node.func, ast.Attribute) and node.func.attr == 'outputType' and len(args) == 1:
+                return A.NONE if args[0] is None else args[0]
+            return D.DomHooks.call(self, interp, node, fname, args, kwargs, state)
+
+    def run(me, textnode):
+        it = A.Interp(model=m, scope=fn, hooks=H(m, PTc), max_iter=6, exc_edges=False, inline=6, heap=True, precise_exc=True)
+        outs = it.run_function(fn, env={'self': me, 'node': textnode})
+        if it.imprecise or it.unknown_branches:
+            raise D.Imprecise('; '.join((it.imprecise + it.unknown_branches)[:3]))
+        return outs
+    cases = [('markup characters', 'a<b> & "c" \'d\'', False), ('entity-like and tag-like text', '&amp; &lt;i&gt; <script>x</script> &#60;', False),
+             ('plain text', 'plain text, 100% ok', False), ('text marked as markup', '<b>raw & kept</b>', True)]
+    me = A.Obj('renderer', D.init_attrs(m, PTc), cls=PTc)
+    for label, value, markup in cases:
+        d = D.Dom(m)
+        t = d.text('t', value)
+        if markup:
+            t.attrs['isMarkup'] = True
+        try:
+            outs = run(me, t)
+        except D.Imprecise as e:
+            chk.undecided(R, 'textDefault: ' + label, str(e), chk.where(fn))
+            continue
+        got = set()
+        for kind, s2, v in outs:
+            if kind != 'return' or not isinstance(v, str):
+                got.add('%s %r' % (kind, v))
+            elif markup:
+                got.add('unchanged' if str(v) == value else 'changed to %r' % str(v))
+            else:
+                sv = str(v)
+                ok = _html.unescape(sv) == value and '<' not in sv and '>' not in sv and not re.search(r'&(?!(amp|lt|gt|quot|#39|#x27|apos);)', sv)
+                got.add('displays as the text' if ok else 'gives %r' % sv)
+        chk.decide(R, 'textDefault: ' + label, got, {'unchanged' if markup else 'displays as the text'},
+                   'the text %r comes back as %s: it does not display as the same characters' % (value, sorted(got)), chk.where(fn))
+    # no state: ordinary text equal to an earlier raw snippet is still escaped
+    d = D.Dom(m)
+    t1, t2 = d.text('t1', 'x<y'), d.text('t2', 'x<y')
+    t1.attrs['isMarkup'] = True
+    try:
+        outs = run(me, t1)
+        got = set()
+        for kind, s2, v in outs:
+            me2 = s2.env['self']
+            for kind2, s3, v2 in run(me2, t2):
+                got.add('escaped' if kind2 == 'return' and isinstance(v2, str) and '<' not in str(v2) else 'gives %r' % (v2,))
+        chk.decide(R, 'textDefault: ordinary text after an equal raw-HTML snippet', got, {'escaped'},
+                   'after rendering the raw snippet x<y, the ordinary text x<y %s: a result remembered by text value ignores the markup flag'
+                   % sorted(got), chk.where(fn))
+    except D.Imprecise as e:
+        chk.undecided(R, 'textDefault: ordinary text after an equal raw-HTML snippet', str(e), chk.where(fn))
 
 
 def r122(chk, m):
-    R = chk.rule('R12.2', 'render recursion: every value that reaches the output of Renderable.__str__ is the result of the escaping '
-                 'hook (text children, .str short-cuts) or of a renderer callable', 4)
-    fn = m.func('plasTeX.Renderers', 'Renderable.__str__')
-    chk.analysed(fn)
-    apps = [c for c in M.calls_in(fn.node) if M.call_name(c) == 's.append']
-    need(len(apps) >= 3, 'Renderable.__str__: output accumulation not found')
-    for c in apps:
-        a = text(c.args[0])
-        ok = a in ('r.textDefault(child)', 'r.textDefault(uni)', 'val')
-        chk.verdict(R, '__str__ appends %s' % a, ok,
-                    'Renderable.__str__ appends %s to the output: text must go through r.textDefault' % a, chk.where(fn, c))
-    rets = [text(r.value) for r in M.walk_no_nested(fn.node) if isinstance(r, ast.Return) and r.value is not None]
-    ok = sorted(rets) == sorted(["r.outputType(r.textDefault(uni))", "''", "r.outputType(''.join(s))"])
-    chk.verdict(R, '__str__ return values', ok, 'Renderable.__str__ returns %s' % rets, chk.where(fn))
-    vals = [text(n.value) for n in M.walk_no_nested(fn.node) if isinstance(n, ast.Assign) and text(n.targets[0]) == 'val']
-    ok = set(vals) <= {'func(child)', 'str(val)', 'func(StaticNode(child, val))'} and 'func(child)' in vals
-    chk.verdict(R, 'rendered value comes from a renderer callable', ok, 'val is assigned from %s' % vals, chk.where(fn))
+    from . import renderheap
+    renderheap.render_rules(chk, m, 'R12.2', 'text')
     br = m.cls('plasTeX.Renderers', 'Renderer')
     dflt = {k: text(v[-1]) for k, v in br.assigns.items() if k in ('textDefault', 'default', 'outputType')}
     chk.note('base Renderer defaults: %s (PageTemplate overrides textDefault)' % dflt)
@@ -209,23 +239,92 @@ def r124_jinja(chk, m):
     chk.note('HTML5: %d templates, %d output expressions; unparsable (frozen skip table): %s' % (n_tpl, n_occ, sorted(unparsable)))
 
 
+class _AttrParser(__import__('html.parser').parser.HTMLParser):
+    def __init__(self):
+        __import__('html.parser').parser.HTMLParser.__init__(self, convert_charrefs=True)
+        self.tags = []
+
+    def handle_starttag(self, tag, attrs):
+        self.tags.append((tag, list(attrs)))
+
+
 def r124_zpt(chk, m):
     R = chk.rule('R12.4z', 'XHTML/ZPT: the engine escapes every attribute value and every non-structure str content (checked in '
                  'simpleTAL.py); templates never combine `structure` with a raw text accessor', 100)
+    from .. import absint as A
+    from . import domheap as D
+    import html as _html
     mod = m.module('plasTeX.Renderers.PageTemplate.simpletal.simpleTAL')
     chk.files.add(mod.path.replace(REPO + '/', ''))
-    # fact 1: tagAsText escapes attribute values with quote=1
-    tag_fns = [n for n in ast.walk(mod.tree) if isinstance(n, ast.FunctionDef) and n.name == 'tagAsText']
-    need(tag_fns, 'simpleTAL.tagAsText not found')
-    ok = all(any(isinstance(c, ast.Call) and M.call_name(c) == 'html.escape' and any(k.arg == 'quote' and text(k.value) in ('1', 'True') for k in c.keywords)
-                 for c in ast.walk(f)) for f in tag_fns)
-    chk.verdict(R, 'simpleTAL.tagAsText escapes attribute values (quote=1)', ok, 'attribute values must be written through html.escape(value, quote=1)', mod.path.replace(REPO + '/', ''))
-    # fact 2: non-structure str content escaped
-    end = [n for n in ast.walk(mod.tree) if isinstance(n, ast.FunctionDef) and n.name == 'cmdEndTagEndScope']
-    need(end, 'simpleTAL.cmdEndTagEndScope not found')
-    src = text(end[0])
-    ok = re.search(r'if isinstance\(resultVal, str\): self\.file\.write\(html\.escape\(resultVal, quote=False\)\)', src.replace('\n', ' ')) is not None
-    chk.verdict(R, 'simpleTAL escapes non-structure text content', ok, 'non-structure str content must be written through html.escape', mod.path.replace(REPO + '/', ''))
+
+    class H(D.DomHooks):
+        def call(self, interp, node, fname, args, kwargs, state):
+            if isinstance(node.func, ast.Attribute) and node.func.attr == 'write' and len(args) == 1:
+                recv = interp.ev(node.func.value, state)
+                if isinstance(recv, A.Obj) and recv.label == 'file':
+                    state.env.setdefault('__written', []).append(args[0] if isinstance(args[0], str) else 'TOP')
+                    return A.NONE
+            if fname == 'isinstance' and len(args) == 2 and isinstance(args[0], str) and isinstance(args[1], M.ClassInfo):
+                return False
+            if fname == 'print':
+                return A.NONE
+            return D.DomHooks.call(self, interp, node, fname, args, kwargs, state)
+
+    def interp_fn(fn, env, cls):
+        it = A.Interp(model=m, scope=fn, hooks=H(m, cls), max_iter=12, exc_edges=False, inline=4, heap=True, precise_exc=True)
+        outs = it.run_function(fn, env=env)
+        if it.imprecise or it.unknown_branches:
+            raise D.Imprecise('; '.join((it.imprecise + it.unknown_branches)[:3]))
+        return outs
+    # fact 1: every start-tag writer of the engine escapes attribute values (quotes included), whatever they look like
+    writers = [(c, f) for c in mod.classes.values() for name, f in sorted(c.methods.items()) if name.startswith('tagAsText')]
+    need(len(writers) >= 3, 'the start-tag writers of simpleTAL (tagAsText*) were not found')
+    values = [('href', 'x"y<z&w'), ('title', 'Q&amp;A "x" onmouseover="y'), ('alt', "it's &lt; > &#60;")]
+    for c, f in writers:
+        chk.analysed(f)
+        key = 'simpleTAL %s.%s escapes attribute values' % (c.name, f.name)
+        try:
+            outs = []
+            for flag in (True, False):       # (the compiler's option to write boolean attributes in minimised form)
+                outs += interp_fn(f, {'self': A.Obj('interp', {'minimizeBooleanAtts': flag}, cls=c), 'tagObj': ('a', list(values)), 'singletonFlag': 0}, c)
+        except D.Imprecise as e:
+            chk.undecided(R, key, str(e), chk.where(f))
+            continue
+        got = set()
+        for kind, s2, v in outs:
+            if kind != 'return' or not isinstance(v, str):
+                got.add('%s %r' % (kind, v))
+                continue
+            p2 = _AttrParser()
+            p2.feed(v)
+            got.add('the attributes read back as given' if p2.tags == [('a', values)] else 'writes %r, read back as %r' % (v, p2.tags))
+        chk.decide(R, key, got, {'the attributes read back as given'}, 'a start tag with the attribute values %r: %s - a value can close its '
+                   'attribute and add markup' % (values, sorted(got)), chk.where(f))
+    # fact 2: element content that is not marked `structure` is written escaped
+    ends = [(c, f) for c in mod.classes.values() for name, f in c.methods.items() if name == 'cmdEndTagEndScope']
+    need(ends, 'simpleTAL.cmdEndTagEndScope not found')
+    for c, f in ends:
+        chk.analysed(f)
+        for structure, value in ((0, 'a<b>&amp;"c"'), (1, '<b>kept</b>')):
+            key = 'simpleTAL %s content is written %s' % ('structure' if structure else 'text', 'as it is' if structure else 'escaped')
+            me = A.Obj('interp', {'tagContent': (structure, value), 'file': A.Obj('file', {}), 'outputTag': 0, 'movePCBack': None, 'localVarsDefined': False,
+                                  'scopeStack': [(None, None, 1, [], [], None, None, False)], 'programCounter': 0, 'movePCForward': None,
+                                  'originalAttributes': [], 'currentAttributes': [], 'repeatVariable': None, 'slotParameters': {}}, cls=c)
+            try:
+                outs = interp_fn(f, {'self': me, 'command': None, 'args': ('span', 0, 0)}, c)
+            except D.Imprecise as e:
+                chk.undecided(R, key, str(e), chk.where(f))
+                continue
+            got = set()
+            for kind, s2, v in outs:
+                w = ''.join(s2.env.get('__written', []))
+                if kind != 'return':
+                    got.add('%s %r' % (kind, v))
+                elif structure:
+                    got.add('as it is' if w == value else 'writes %r' % w)
+                else:
+                    got.add('escaped' if _html.unescape(w) == value and '<' not in w and '>' not in w else 'writes %r' % w)
+            chk.decide(R, key, got, {'as it is' if structure else 'escaped'}, 'content %r: %s' % (value, sorted(got)), chk.where(f))
     # templates
     files = [f for f in T.template_files(REPO, 'XHTML') if f.endswith(('.zpt', '.zpts', '.html', '.htm'))]
     need(len(files) >= 30, 'only %d XHTML template files found' % len(files))
@@ -245,20 +344,45 @@ def r124_zpt(chk, m):
 
 
 def r125(chk, m):
-    R = chk.rule('R12.5', 'high-character escaping replaces every character above 127 (all planes) by the numeric reference of its '
-                 'code point and nothing else', 1)
-    fn = m.func(PT, 'PageTemplate.processFileContent')
+    from .. import absint as A
+    from . import domheap as D
+    import html as _html
+    R = chk.rule('R12.5', 'high-character escaping interpreted on sample pages: with the option on the page comes back pure ASCII and decodes '
+                 'to the same characters (all planes); with the option off it comes back unchanged', 4)
+    PTc = m.cls(PT, 'PageTemplate')
+    fn = m.find_method(PTc, 'processFileContent')
+    need(fn is not None, 'PageTemplate.processFileContent not found')
     chk.analysed(fn)
-    blk = [n for n in M.walk_no_nested(fn.node) if isinstance(n, ast.If) and 'escape-high-chars' in text(n.test)]
-    need(len(blk) == 1, 'processFileContent: escape-high-chars block not found')
-    src = ' '.join(text(s) for s in blk[0].body)
-    loop = re.search(r"for i, item in enumerate\(s\): if ord\(item\) > 127: s\[i\] = '&#%\.?\d*d;' % ord\(item\)", src.replace('\n', ' ')) is not None
-    rx_all = re.search(r"re\.sub\(r?['\"]\[\^\\x00-\\x7[fF]\]['\"]", src) is not None or re.search(r"\\U0010[fF]{4}", src) is not None
-    rx_bmp = 're.sub' in src and re.search(r'\\uffff|\\uFFFF', src) is not None and not rx_all
-    if not (loop or rx_all or rx_bmp):
-        raise AnalysisError('processFileContent: unrecognised high-character escaping idiom: %s' % src[:120])
-    chk.verdict(R, 'escape-high-chars covers every code point above 127', (loop or rx_all) and not rx_bmp,
-                'high characters are replaced by %r: characters above U+FFFF stay raw, so the output is not pure ASCII' % src[:100], chk.where(fn, blk[0]))
+
+    class H(D.DomHooks):
+        def call(self, interp, node, fname, args, kwargs, state):
+            if isinstance(node.func, ast.Attribute) and node.func.attr == 'processFileContent' and len(args) == 3 and not isinstance(node.func.value, ast.Call) \
+               and text(node.func.value) != 'self':
+                return args[2]          # the base class hook (no-op post-processing)
+            if isinstance(node.func, ast.Call) and M.call_name(node.func) == 'super' and isinstance(node.func, ast.Call):
+                return None
+            return D.DomHooks.call(self, interp, node, fname, args, kwargs, state)
+    pages = [('Latin-1, BMP and astral characters', '<p>caf\u00e9 \u20ac \U0001F600 \u4e2d</p>'), ('ASCII only', '<p>plain &amp; simple</p>')]
+    for on in (True, False):
+        for label, page in pages:
+            doc = A.Obj('document', {'config': {'files': {'escape-high-chars': on}}})
+            me = A.Obj('renderer', {}, cls=PTc)
+            key = '%s, escaping %s' % (label, 'on' if on else 'off')
+            it = A.Interp(model=m, scope=fn, hooks=H(m, PTc), max_iter=len(page) + 4, exc_edges=False, inline=6, heap=True, precise_exc=True)
+            outs = it.run_function(fn, env={'self': me, 'document': doc, 's': page})
+            if it.imprecise or it.unknown_branches:
+                chk.undecided(R, key, '; '.join((it.imprecise + it.unknown_branches)[:3]), chk.where(fn))
+                continue
+            got = set()
+            for kind, s2, v in outs:
+                if kind != 'return' or not isinstance(v, str):
+                    got.add('%s %r' % (kind, v))
+                elif on:
+                    got.add('pure ASCII, same text' if v.isascii() and _html.unescape(v) == _html.unescape(page) else 'gives %r' % v)
+                else:
+                    got.add('unchanged' if v == page else 'gives %r' % v)
+            chk.decide(R, key, got, {'pure ASCII, same text' if on else 'unchanged'},
+                       'the page %r comes back as %s' % (page, sorted(got)), chk.where(fn))
 
 
 def fragment_builders(m):
